@@ -5,9 +5,6 @@ the virtual run in which the pins that the implementation ignores count as uncon
 namespace KV.Transform
 open KV
 
-/-- the implementation ignores input port `inn` -/
-def ignoredPort (m : NNet) (inn : Nat) : Bool := (m.net.node inn).outs.length == 0
-
 /-- the pin list of the virtual run: an instance pin that the implementation ignores counts as unconnected -/
 def clrIgn (m : NNet) (p : Nat × Option Nat) : Nat × Option Nat := (p.1, if ignoredPort m p.1 then none else p.2)
 
